@@ -146,6 +146,12 @@ class BodyError(Exception):
     pass
 
 
+# what the body of `async with api:` may raise: leaving the context must disconnect whatever it is
+BODY_EXCEPTIONS = {"BodyError": BodyError, "TimeoutError": TimeoutError, "ConnectionResetError": ConnectionResetError,
+                   "BrokenPipeError": BrokenPipeError, "OSError": OSError, "RuntimeError": RuntimeError, "KeyError": KeyError,
+                   "CancelledError": asyncio.CancelledError}
+
+
 async def _client_life(api_type: str, acts: List[str]) -> str:
     import aioswitcher.api as A
     dev = Device()
@@ -179,13 +185,20 @@ async def _client_life(api_type: str, acts: List[str]) -> str:
                     r = await (api.get_state() if api_type == "type1" else api.get_shutter_state())
                 elif a == "disc":
                     await api.disconnect()
-                elif a in ("with", "withx"):
+                elif a == "with" or a.startswith("withx"):
                     target["port"] = dev.port
-                    async with api:
-                        if a == "withx":
-                            raise BodyError()
-            except BodyError:
-                res = "raise_BodyError"
+                    body_exc = None
+                    if a.startswith("withx"):
+                        body_exc = BODY_EXCEPTIONS[a.split(":", 1)[1] if ":" in a else "BodyError"]()
+                    try:
+                        async with api:
+                            if body_exc is not None:
+                                raise body_exc
+                    except BaseException as e:  # noqa
+                        if e is body_exc:
+                            res = "raise_BodyError"      # the body's own exception came out again, whatever its class
+                        else:
+                            raise
             except RuntimeError:
                 res = "raise_RuntimeError"
             except OSError:
